@@ -1,7 +1,10 @@
 (* C19 — property theorems only. Each is closed by `exact <lemma>` and followed by Print Assumptions. *)
-From Coq Require Import QArith Qabs List ZArith.
-From GeosV.C19 Require Import LinRefDefs LinRefProofs LinRefNearest.
+From Coq Require Import QArith Qabs List ZArith Reals Permutation.
+From GeosV.C19 Require Import LinRefDefs LinRefProofs LinRefNearest CheckDefs CheckLists CheckGeom MergeLength CheckProofs.
 Import ListNotations.
+
+(* ================================================================ linear referencing (model M of LengthLocationMap & co.) *)
+Section LinRef.
 Local Open Scope Q_scope.
 
 (* getLength (getLocation len) is the clamped length: below 0 and above the total are clamped, negative lengths count from the end *)
@@ -9,18 +12,25 @@ Theorem C19_location_length_roundtrip : forall g len, wf g -> len_of g (get_loca
 Proof. exact location_length_roundtrip. Qed.
 Print Assumptions C19_location_length_roundtrip.
 
-(* getLocationForward (getLength l) is the canonical (lower) representative of l *)
+(* getLocationForward (getLength l) is the canonical (lower) representative of l: fraction 1 becomes the next vertex, the
+   start of a later component becomes the end of the previous one *)
 Theorem C19_length_location_roundtrip : forall g l, wf g -> valid_loc g l -> loc_eq (loc_forward g (len_of g l)) (normalise g l).
 Proof. exact length_location_roundtrip. Qed.
 Print Assumptions C19_length_location_roundtrip.
 
-(* the lines extracted between two length indices have total length |clamp(end) - clamp(start)| *)
+(* ExtractLineByLocation::computeLinear: the lines between two locations have length getLength(end) - getLength(start) *)
+Theorem C19_compute_linear_length : forall g st en, wf g -> svalid_loc g st -> svalid_loc g en -> cmp_loc en st <> Lt ->
+  lines_len (compute_linear g st en) == len_of g en - len_of g st.
+Proof. exact compute_linear_length. Qed.
+Print Assumptions C19_compute_linear_length.
+
+(* LengthIndexedLine::extractLine: the substring between two length indices has length |clamp(end) - clamp(start)| *)
 Theorem C19_substring_length : forall g si ei, wf g ->
   lines_len (extract_line g si ei) == Qabs (clamp_index g ei - clamp_index g si).
 Proof. exact substring_length. Qed.
 Print Assumptions C19_substring_length.
 
-(* single LineString: the point interpolated at the projected distance realises the minimum point-segment distance *)
+(* single LineString: the point interpolated at the projected distance realises the minimum point-segment distance ... *)
 Theorem C19_project_interpolate_nearest : forall lens c p l,
   Forall (fun s => 0 < s) lens -> lens <> [] -> length lens = pred (length c) -> project_loc [c] p = Some l ->
   let q := interpolate [lens] [c] (project [lens] [c] p) in
@@ -28,3 +38,121 @@ Theorem C19_project_interpolate_nearest : forall lens c p l,
   (exists ab, In ab (segs_of c) /\ qd2 (q_of_z p) q == d2_pt_seg p (fst ab) (snd ab)).
 Proof. exact project_interpolate_nearest. Qed.
 Print Assumptions C19_project_interpolate_nearest.
+
+(* ... and the point-segment distance is the minimum over the points of the segment: no point of the line is nearer *)
+Theorem C19_d2_pt_seg_min : forall p a b t, 0 <= t -> t <= 1 -> d2_pt_seg p a b <= qd2 (q_of_z p) (seg_pt a b t).
+Proof. exact d2_pt_seg_min. Qed.
+Print Assumptions C19_d2_pt_seg_min.
+Theorem C19_project_interpolate_nearest_on_line : forall lens c p l,
+  Forall (fun s => 0 < s) lens -> lens <> [] -> length lens = pred (length c) -> project_loc [c] p = Some l ->
+  forall ab t, In ab (segs_of c) -> 0 <= t -> t <= 1 ->
+  qd2 (q_of_z p) (interpolate [lens] [c] (project [lens] [c] p)) <= qd2 (q_of_z p) (seg_pt (fst ab) (snd ab) t).
+Proof. exact project_interpolate_nearest_on_line. Qed.
+Print Assumptions C19_project_interpolate_nearest_on_line.
+
+(* MultiLineString: refuted (finding C19-F1) — the start of a later component shares its length index with the end of the
+   previous one: for MULTILINESTRING((0 0,10 0),(20 5,30 5)) and p = (19 5) the projected length is 10, the interpolated point
+   (10 0) at squared distance 106, while the segment (20 5)-(30 5) is at squared distance 1 *)
+Theorem C19_project_interpolate_multi_refuted :
+  wf mref_g /\ shape_ok mref_g mref_gz /\ project mref_g mref_gz mref_p == 10 /\
+  qpt_eq (interpolate mref_g mref_gz (project mref_g mref_gz mref_p)) (10, 0) /\
+  qd2 (q_of_z mref_p) (interpolate mref_g mref_gz (project mref_g mref_gz mref_p)) == 106 /\
+  d2_pt_seg mref_p (20, 5)%Z (30, 5)%Z == 1.
+Proof. exact project_interpolate_multi_refuted. Qed.
+Print Assumptions C19_project_interpolate_multi_refuted.
+
+(* non-vacuity: a two-component line with Pythagorean segments *)
+Definition ex_g : lin := [[5; 10]; [13]].
+Definition ex_gz : geomz := [[(0, 0); (3, 4); (9, 12)]; [(20, 0); (25, 12)]]%Z.
+Example ex_wf : wf ex_g.
+Proof. split; [discriminate | repeat constructor; discriminate || reflexivity]. Qed.
+Definition show_loc_nat (l : loc) : nat * nat := (lcomp l, lseg l).
+Example ex_loc_values :
+  (show_loc_nat (get_location ex_g (15 # 2)), show_loc_nat (get_location ex_g 15), show_loc_nat (get_location_r ex_g 15 false),
+   show_loc_nat (get_location ex_g (-13)), show_loc_nat (get_location ex_g 100), show_loc_nat (get_location ex_g (-100)))
+  = ((0, 1), (0, 2), (1, 0), (0, 2), (1, 1), (0, 0))%nat.
+Proof. vm_compute. reflexivity. Qed.
+Example ex_roundtrip : len_of ex_g (get_location ex_g (33 # 2)) == 33 # 2 /\ len_of ex_g (get_location ex_g 40) == 28.
+Proof. split; vm_compute; reflexivity. Qed.
+Example ex_normalise : loc_eq (normalise ex_g (mkLoc 1 0 0)) (mkLoc 0 2 0) /\ loc_eq (normalise ex_g (mkLoc 0 0 1)) (mkLoc 0 1 0).
+Proof. split; vm_compute; repeat split; reflexivity. Qed.
+Example ex_substring : lines_len (extract_line ex_g (5 # 2) 20) == 35 # 2 /\ lines_len (extract_line ex_g 20 (5 # 2)) == 35 # 2.
+Proof. split; vm_compute; reflexivity. Qed.
+Example ex_project : project [[5; 10]] [[(0, 0); (3, 4); (9, 12)]%Z] (7, 1)%Z == 5 /\
+                     qpt_eq (interpolate [[5; 10]] [[(0, 0); (3, 4); (9, 12)]%Z] 5) (3, 4).
+Proof. split; [vm_compute; reflexivity | split; vm_compute; reflexivity]. Qed.
+End LinRef.
+
+(* ================================================================ relational specifications with certified checkers *)
+(* merging: equal multisets of unit sub-segments give equal point sets and equal total length *)
+Theorem C19_merge_multiset_pointset_length : forall V A B,
+  Forall (fun s => nondeg s = true) A -> Forall (fun s => nondeg s = true) B ->
+  Permutation (units_undir V A) (units_undir V B) ->
+  (forall p, on_linesQ p A <-> on_linesQ p B) /\ total_len A = total_len B.
+Proof. intros V A B FA FB H. split; [intros p; exact (merge_pointset V A B p FA FB H) | exact (merge_length V A B FA FB H)]. Qed.
+Print Assumptions C19_merge_multiset_pointset_length.
+
+Theorem C19_merge_check_sound : forall directed ins outs, merge_check directed ins outs = true -> MergeSpec directed ins outs.
+Proof. exact merge_check_sound. Qed.
+Print Assumptions C19_merge_check_sound.
+
+(* noding: the segment test is exact ... *)
+Theorem C19_seg_ok_sound : forall s t, seg_ok s t = true ->
+  forall p, on_segQ p s -> on_segQ p t -> is_endQ p s /\ is_endQ p t.
+Proof. exact seg_ok_sound. Qed.
+Print Assumptions C19_seg_ok_sound.
+(* ... the distance test compares the exact squared distance with the squared tolerance ... *)
+Theorem C19_near_seg_sound : forall tn td k p s, (0 < td)%Z -> near_seg tn td k p s = true ->
+  (d2_pt_seg p (scale_z k (fst s)) (scale_z k (snd s)) * inject_Z td <= inject_Z (tn * k * k))%Q.
+Proof. exact near_seg_sound. Qed.
+Print Assumptions C19_near_seg_sound.
+(* ... and the checker establishes the pairwise clause exactly, the point-set clause on its vertices and sampled midpoints *)
+Theorem C19_noding_check_sound_partial : forall tn td ins outs, noding_check tn td ins outs = true -> NodingSpec tn td ins outs.
+Proof. exact noding_check_sound_partial. Qed.
+Print Assumptions C19_noding_check_sound_partial.
+
+(* polygonizing *)
+Theorem C19_polygonize_check_sound : forall ins ps dangles cuts invalid,
+  polygonize_check ins ps dangles cuts invalid = true -> PolygonizeSpec ins ps dangles cuts invalid.
+Proof. exact polygonize_check_sound. Qed.
+Print Assumptions C19_polygonize_check_sound.
+Theorem C19_core_no_dangles : forall ss s, In s (core_of ss) ->
+  seg_deg (fst s) (core_of ss) <> 1%Z /\ seg_deg (snd s) (core_of ss) <> 1%Z.
+Proof. exact core_no_dangles. Qed.
+Print Assumptions C19_core_no_dangles.
+
+(* shared paths *)
+Theorem C19_shared_check_sound_partial : forall g1 g2 fw bw, shared_check g1 g2 fw bw = true -> SharedSpec g1 g2 fw bw.
+Proof. exact shared_check_sound_partial. Qed.
+Print Assumptions C19_shared_check_sound_partial.
+
+(* non-vacuity: the checkers accept correct outputs and reject broken ones *)
+Local Open Scope Z_scope.
+Example ex_merge_ok : merge_check false [[(0, 0); (1, 0)]; [(2, 0); (1, 0)]; [(2, 0); (3, 0)]; [(2, 0); (2, 1)]]
+                                        [[(0, 0); (1, 0); (2, 0)]; [(2, 0); (3, 0)]; [(2, 0); (2, 1)]] = true.
+Proof. vm_compute. reflexivity. Qed.
+Example ex_merge_unmerged : merge_nodes_ok false [[(0, 0); (1, 0)]; [(2, 0); (1, 0)]] [[(0, 0); (1, 0)]; [(1, 0); (2, 0)]] = false.
+Proof. vm_compute. reflexivity. Qed.
+Example ex_merge_directed : merge_check true [[(0, 0); (1, 0)]; [(2, 0); (1, 0)]] [[(0, 0); (1, 0)]; [(2, 0); (1, 0)]] = true
+                            /\ merge_units_ok true [[(0, 0); (1, 0)]; [(2, 0); (1, 0)]] [[(0, 0); (1, 0); (2, 0)]] = false.
+Proof. split; vm_compute; reflexivity. Qed.
+Example ex_noding_ok : noding_check 1 (10 ^ 18) [[(0, 0); (4, 4)]; [(0, 4); (4, 0)]]
+                                    [[(0, 0); (2, 2)]; [(2, 2); (4, 4)]; [(0, 4); (2, 2)]; [(2, 2); (4, 0)]] = true.
+Proof. vm_compute. reflexivity. Qed.
+Example ex_noding_unnoded : node_disjoint_ok [[(0, 0); (4, 4)]; [(0, 4); (4, 0)]] = false
+                            /\ node_disjoint_ok [[(0, 0); (4, 0)]; [(2, 0); (2, 3)]] = false.
+Proof. split; vm_compute; reflexivity. Qed.
+Example ex_polygonize_ok :
+  polygonize_check [[(0, 0); (4, 0)]; [(4, 0); (4, 4)]; [(4, 4); (0, 4)]; [(0, 4); (0, 0)]; [(4, 4); (6, 6)]; [(6, 6); (7, 7)]]
+                   [([(4, 0); (0, 0); (0, 4); (4, 4); (4, 0)], [])] [[(6, 6); (7, 7)]; [(4, 4); (6, 6)]] [] [] = true.
+Proof. vm_compute. reflexivity. Qed.
+Example ex_polygonize_missing_dangle :
+  polygonize_check [[(0, 0); (4, 0)]; [(4, 0); (4, 4)]; [(4, 4); (0, 4)]; [(0, 4); (0, 0)]; [(4, 4); (6, 6)]; [(6, 6); (7, 7)]]
+                   [([(4, 0); (0, 0); (0, 4); (4, 4); (4, 0)], [])] [[(6, 6); (7, 7)]] [[(4, 4); (6, 6)]] [] = false.
+Proof. vm_compute. reflexivity. Qed.
+Example ex_shared_ok :
+  shared_check [[(0, 0); (10, 0); (10, 10); (0, 10)]] [[(2, 0); (6, 0)]; [(10, 8); (10, 3)]]
+               [[(2, 0); (6, 0)]] [[(10, 3); (10, 8)]] = true
+  /\ shared_check [[(0, 0); (10, 0); (10, 10); (0, 10)]] [[(2, 0); (6, 0)]; [(10, 8); (10, 3)]]
+               [[(2, 0); (6, 0)]; [(10, 3); (10, 8)]] [] = false.
+Proof. split; vm_compute; reflexivity. Qed.
